@@ -219,3 +219,66 @@ B('c05b_rows_added_after_registration', ['C05'], 'R05.a',
   (R, "for name, func, pattern in DEFAULT_CONVS:\n    _register_converter(name, func, pattern)\n",
       "for name, func, pattern in DEFAULT_CONVS:\n    _register_converter(name, func, pattern)\n"
       "DEFAULT_CONVS += [(_type_name, unicode, _STR_PATTERN) for _type_name in ('str', 'unicode')]\n"))
+
+# ---- fourth batch: role variables that are copies, groups read in one call, the name read off the match in place ----
+_DUP = "        if name in var_converter_map:\n"
+_VCM = "        var_converter_map[name] = build_converter(cur_conv,"
+_CPP = "def _compile_path_pattern(pattern, mode=S_REWRITE):\n"
+_RAW_PARSE = "        parsed = match.groupdict()\n        name, raw_type, raw_op = parsed['name'], parsed['type'], parsed['op']\n"
+_RAW_COLON = "        if raw_op == ':':\n            raw_op = ''\n        op = raw_op\n"
+_RAW_DEFTYPE = "        if not raw_type:\n            raw_type = 'unicode'\n        type_name = raw_type\n"
+_PARSE_HELPER = ("def _parse_binding(match):\n    parsed = match.groupdict()\n    name, type_name, op = parsed['name'], parsed['type'], parsed['op']\n"
+                 "    if op == ':':\n        op = ''\n    if not type_name:\n        type_name = 'unicode'\n    return name, op, type_name\n\n\n")
+_BINDING_HELPER = ("def _compile_binding(match, sep, seen):\n    parsed = match.groupdict()\n"
+                   "    name, type_name, op = parsed['name'], parsed['type'], parsed['op']\n"
+                   "    if name in seen:\n        raise InvalidPattern('duplicate path binding %s' % name)\n"
+                   "    if op == ':':\n        op = ''\n    type_name = type_name or 'unicode'\n"
+                   "    try:\n        cur_conv, cur_patt = TYPE_CONV_MAP[type_name], TYPE_PATT_MAP[type_name]\n    except KeyError:\n"
+                   "        raise InvalidPattern('unknown type specifier %s' % type_name)\n"
+                   "    try:\n        multi, optional = _OP_ARITY_MAP[op], _OP_OPTIONALITY_MAP[op]\n    except KeyError:\n"
+                   "        raise InvalidPattern('unknown arity operator %r' % op)\n"
+                   "    converter = build_converter(cur_conv, multi=multi, optional=optional)\n"
+                   "    fragment = _SEG_TMPL.format(name=name, sep=sep, pattern=cur_patt, arity=op)\n"
+                   "    return name, converter, fragment\n\n\n")
+_LOOP_BODY = ("        parsed = match.groupdict()\n        name, type_name, op = parsed['name'], parsed['type'], parsed['op']\n"
+              "        if name in var_converter_map:\n            raise InvalidPattern('duplicate path binding %s' % name)\n"
+              + _COLON + _DEFTYPE + _TYPETRY + _OPTRY + _STORE)
+_LOOP_CALL = ("        name, converter, path_seg_pattern = _compile_binding(match, sep, var_converter_map)\n"
+              "        var_converter_map[name] = converter\n")
+
+T('c05t_role_variables_are_copies', ['C05'], (R, _PARSE, _RAW_PARSE), (R, _COLON, _RAW_COLON), (R, _DEFTYPE, _RAW_DEFTYPE))
+T('c05t_groups_in_one_call', ['C05'], (R, _PARSE, "        name, op, type_name = match.group('name', 'op', 'type')\n"))
+T('c05t_type_or_default_of_itself', ['C05'], (R, _DEFTYPE, "        type_name = type_name or 'unicode'\n"))
+T('c05t_name_read_off_the_match', ['C05'], (R, _FMT, _FMT.replace("name=name,", "name=parsed['name'],")))
+T('c05t_recorded_under_a_copy_of_the_name', ['C05'], (R, _VCM, "        binding_name = name\n" + _VCM.replace("[name]", "[binding_name]")))
+T('c05t_parse_binding_helper', ['C05'], (R, _CPP, _PARSE_HELPER + _CPP), (R, _PARSE, "        name, op, type_name = _parse_binding(match)\n"),
+  (R, _COLON, ''), (R, _DEFTYPE, ''))
+T('c05t_compile_binding_helper', ['C05'], (R, _CPP, _BINDING_HELPER + _CPP), (R, _LOOP_BODY, _LOOP_CALL))
+
+B('c05b_copy_taken_before_colon_normalised', ['C05'], 'R05.b', (R, _PARSE, _RAW_PARSE), (R, _DEFTYPE, _RAW_DEFTYPE),
+  (R, _COLON, "        op = raw_op\n        if raw_op == ':':\n            raw_op = ''\n"))
+B('c05b_copy_taken_before_default_type', ['C05'], 'R05.e', (R, _PARSE, _RAW_PARSE), (R, _COLON, _RAW_COLON),
+  (R, _DEFTYPE, "        type_name = raw_type\n        if not raw_type:\n            raw_type = 'unicode'\n"))
+B('c05b_copies_of_crossed_groups', ['C05'], 'R05.e', (R, _PARSE, _RAW_PARSE.replace("name, raw_type, raw_op", "name, raw_op, raw_type")),
+  (R, _COLON, _RAW_COLON), (R, _DEFTYPE, _RAW_DEFTYPE))
+B('c05b_groups_in_one_call_crossed', ['C05'], 'R05.e', (R, _PARSE, "        name, type_name, op = match.group('name', 'op', 'type')\n"))
+B('c05b_groups_in_one_call_name_twice', ['C05'], 'R05.e', (R, _PARSE, "        name, op, type_name = match.group('name', 'op', 'name')\n"))
+B('c05b_type_or_default_of_itself_int', ['C05'], 'R05.e', (R, _DEFTYPE, "        type_name = type_name or 'int'\n"))
+B('c05b_default_type_after_the_lookups', ['C05'], 'R05.e', (R, _DEFTYPE, ''),
+  (R, "        try:\n" + _OPLOOK, "        type_name = type_name or 'unicode'\n        try:\n" + _OPLOOK))
+B('c05b_default_type_only_for_some_operators', ['C05'], 'R05.e',
+  (R, _DEFTYPE, "        if op:\n            if not type_name:\n                type_name = 'unicode'\n"))
+B('c05b_segment_named_after_the_type', ['C05'], 'R05.e', (R, _FMT, _FMT.replace("name=name,", "name=parsed['type'],")))
+B('c05b_recorded_under_the_operator_group', ['C05'], 'R05.e', (R, _VCM, _VCM.replace("[name]", "[parsed['op']]")))
+B('c05b_recorded_under_a_copy_of_the_type', ['C05'], 'R05.e', (R, _VCM, "        binding_name = type_name\n" + _VCM.replace("[name]", "[binding_name]")))
+B('c05b_parse_binding_helper_crossed', ['C05'], 'R05.e', (R, _CPP, _PARSE_HELPER.replace("return name, op, type_name", "return name, type_name, op") + _CPP),
+  (R, _PARSE, "        name, op, type_name = _parse_binding(match)\n"), (R, _COLON, ''), (R, _DEFTYPE, ''))
+B('c05b_parse_binding_helper_keeps_colon', ['C05'], 'R05.b', (R, _CPP, _PARSE_HELPER.replace("    if op == ':':\n        op = ''\n", "") + _CPP),
+  (R, _PARSE, "        name, op, type_name = _parse_binding(match)\n"), (R, _COLON, ''), (R, _DEFTYPE, ''))
+B('c05b_parse_binding_helper_without_default', ['C05'], 'R05.e', (R, _CPP, _PARSE_HELPER.replace("    if not type_name:\n        type_name = 'unicode'\n", "") + _CPP),
+  (R, _PARSE, "        name, op, type_name = _parse_binding(match)\n"), (R, _COLON, ''), (R, _DEFTYPE, ''))
+B('c05b_compile_binding_helper_returns_type_as_name', ['C05'], 'R05.e',
+  (R, _CPP, _BINDING_HELPER.replace("return name, converter, fragment", "return type_name, converter, fragment") + _CPP), (R, _LOOP_BODY, _LOOP_CALL))
+B('c05b_compile_binding_helper_colon_after_lookups', ['C05'], 'R05.b',
+  (R, _CPP, _BINDING_HELPER.replace("    if op == ':':\n        op = ''\n", "").replace("    converter = build_converter(", "    if op == ':':\n        op = ''\n    converter = build_converter(") + _CPP),
+  (R, _LOOP_BODY, _LOOP_CALL))
